@@ -1,5 +1,14 @@
-(* Helpers evaluated by the generated case files of C06/C07 (harness/c06.py, c07.py). *)
+(* Helpers evaluated by the generated case files of C06/C07 (harness/c06.py, c07.py):
+     cases_writers   M = code: the string Model/CueWriter.v computes equals the string the implementation returned
+     cases_wf        S on the code: Spec/CueSpec.v srt_wf / vtt_wf accept the implementation's output
+     cases_cues      S on the code: the cues parsed from the implementation's output (by Spec/CueSpec.v, and the same
+                     cues as the harness's own parser found) are the cue list the property prescribes
+     cases_runs      S on the code: the tags of the implementation's output give every visible character the style
+                     the snapshot prescribes
+     cases_triggers  the triggers of the recorded findings, per configuration *)
+From Coq Require Import Qabs.
 From TT Require Import Model.Doc Gen.StyleTables Model.Isd Model.SigTimes Model.TimeCode Model.IsdFilters Gen.CueTables Model.CueWriter.
+From TT Require Import Model.CueTriggers Spec.IsdSpec Spec.CueSpec.
 
 (* what the implementation did: the returned string, or the stage at which it raised
    (1 = snapshot generation, 3 = negative time, 4 = to_string ValueError, 5 = AttributeError in process_p) *)
@@ -11,7 +20,124 @@ Definition out_eqb (m : res text) (p : pyout) : bool :=
   | Err c, PyErr s => err_stage c =? s
   | _, _ => false
   end.
+
+(* a line percentage whose exact value is within 1e-6 of a rounding tie: the implementation computes it in binary floating
+   point, the model exactly; such cases are left out of the string comparison (and counted) *)
+Definition near_tie (q : Q) : bool :=
+  let two := Qmult q (qz 2) in                       (* a tie iff 2q is an odd integer *)
+  let n := round_he (Qnum two) (Zpos (Qden two)) in
+  Z.odd n && Qle_bool (Qabs (Qminus two (qz n))) (Qmake 1 500000).
+Definition region_tie (r : elem) : bool :=
+  match sget (e_styles (eattrs r)) p_Position, sget (e_styles (eattrs r)) p_Extent with
+  | Some (VPos _ _ v _), Some (VExtent h _) =>
+      near_tie (lv v) || near_tie (Qplus (lv v) (lv h)) || near_tie (Qplus (lv v) (Qdiv (lv h) (qz 2)))
+  | _, _ => false
+  end.
+Definition seq_tie (s : res (list (Q * list elem))) : bool :=
+  match s with Ok l => existsb (fun x => existsb region_tie (snd x)) l | Err _ => false end.
+
 (* one document, the two SRT configurations and the eight WebVTT configurations *)
+(* the string with the digits of every "line:N" removed *)
+Fixpoint mask_go (recent : text) (dropping : bool) (t : text) : text :=
+  match t with
+  | [] => []
+  | c :: t' =>
+      if dropping && (is_dig c || (c =? 45)) then mask_go recent true t'
+      else let recent' := firstn 5 (c :: recent) in
+           c :: mask_go recent' (text_eqb recent' [58; 101; 110; 105; 108]) t'
+  end.
+Definition mask_lines (t : text) : text := mask_go [] false t.
+Definition out_eqb_masked (m : res text) (p : pyout) : bool :=
+  match m, p with
+  | Ok a, PyOk b => text_eqb (mask_lines a) (mask_lines b)
+  | _, _ => out_eqb m p
+  end.
 Definition cases_writers (d : doc) (srt : list (bool * pyout)) (vtt : list (vtt_config * pyout)) : list bool :=
   let s := isd_sequence d in
-  map (fun x => out_eqb (srt_of_seq (fst x) s) (snd x)) srt ++ map (fun x => out_eqb (vtt_of_seq (fst x) s) (snd x)) vtt.
+  let tie := seq_tie s in
+  map (fun x => out_eqb (srt_of_seq (fst x) s) (snd x)) srt ++
+  map (fun x => if line_position (fst x) && tie then out_eqb_masked (vtt_of_seq (fst x) s) (snd x) else out_eqb (vtt_of_seq (fst x) s) (snd x)) vtt.
+Definition cases_ties (d : doc) : list bool := [negb (seq_tie (isd_sequence d))].
+
+Definition cases_wf (srt : list (bool * pyout)) (vtt : list (vtt_config * pyout)) : list bool :=
+  map (fun x => match snd x with PyOk t => srt_wf t | PyErr _ => false end) srt ++
+  map (fun x => match snd x with PyOk t => vtt_wf t | PyErr _ => false end) vtt.
+
+(* ---- C06 ---------------------------------------------------------------------------------------------------------- *)
+Definition scues_of (runs : text -> option (list (Z * rstyle))) (cs : list rcue) : option (list scue) :=
+  all_some (map (fun c => match runs (payload_text c) with
+                          | Some r => Some (mkSCue (r_begin c) (r_end c) (payload_toks (run_chars r)))
+                          | None => None
+                          end) cs).
+Definition py_scues (l : list (Z * Z * text)) : list scue := map (fun x => mkSCue (fst (fst x)) (snd (fst x)) (payload_toks (snd x))) l.
+Fixpoint scues_same (a b : list scue) : bool :=
+  match a, b with
+  | [], [] => true
+  | x :: a', y :: b' => (s_begin x =? s_begin y) && (s_end x =? s_end y) && toks_eqb (s_toks x) (s_toks y) && scues_same a' b'
+  | _, _ => false
+  end.
+Definition c06_ok (d : doc) (ts : res (list Q)) (parse : text -> option (list rcue)) (runs : text -> option (list (Z * rstyle)))
+                  (out : pyout) (py : list (Z * Z * text)) : bool :=
+  match out, ts with
+  | PyOk t, Ok times =>
+      match parse t with
+      | Some cs => match scues_of runs cs with
+                   | Some sc => scues_same sc (py_scues py) && cues_ok d times sc
+                   | None => false
+                   end
+      | None => false
+      end
+  | _, _ => false
+  end.
+Fixpoint zip3 {A B C} (a : list A) (b : list B) (f : A -> B -> C) : list C :=
+  match a, b with x :: a', y :: b' => f x y :: zip3 a' b' f | _, _ => [] end.
+Definition cases_cues (d : doc) (srt : list (bool * pyout)) (vtt : list (vtt_config * pyout)) (py : list (list (Z * Z * text))) : list bool :=
+  let ts := sig d in
+  zip3 (map snd srt) (firstn (length srt) py) (fun o p => c06_ok d ts srt_parse srt_runs o p) ++
+  zip3 (map snd vtt) (skipn (length srt) py) (fun o p => c06_ok d ts vtt_parse vtt_runs o p).
+
+(* ---- C07: runs --------------------------------------------------------------------------------------------------- *)
+Definition runs_ok (fmt with_bg : bool) (to_c : rstyle -> option cstyle) (runs : text -> option (list (Z * rstyle)))
+                   (seq : list (Q * list elem)) (cs : list rcue) : bool :=
+  forallb (fun x =>
+             let mine := filter (fun c => r_begin c =? round_ms (fst x)) cs in
+             match all_some (map (fun c => match runs (payload_text c) with Some r => map_runs to_c r | None => None end) mine) with
+             | Some rs => styled_eqb (visible_only (concat rs)) (expected_styled fmt with_bg (snd x))
+             | None => false
+             end) seq &&
+  forallb (fun c => existsb (fun x => r_begin c =? round_ms (fst x)) seq) cs.
+Definition cases_runs (d : doc) (srt : list (bool * pyout)) (vtt : list (vtt_config * pyout)) : list bool :=
+  match isd_sequence d with
+  | Ok seq =>
+      map (fun x => match snd x with
+                    | PyOk t => match srt_parse t with Some cs => runs_ok (fst x) false srt_cstyle srt_runs seq cs | None => false end
+                    | PyErr _ => false
+                    end) srt ++
+      map (fun x => match snd x with
+                    | PyOk t => match vtt_parse t with Some cs => runs_ok true true (vtt_cstyle (style_rules t)) vtt_runs seq cs | None => false end
+                    | PyErr _ => false
+                    end) vtt
+  | Err _ => map (fun _ => false) srt ++ map (fun _ => false) vtt
+  end.
+
+(* ---- triggers: per configuration [ruby; nested div; tags only; collapsed; unbounded; arrow; blank line; line range;
+   snapshot generation failed; SubRip markup in text] (true = the trigger does NOT fire) ------------------------------ *)
+Definition ntrig : nat := 10.
+Definition srt_markup_in_text (cs : list cue) : bool :=
+  existsb (fun c => existsb (fun p => match p with PChar _ => false | _ => true end) (srt_lex LText (cue_chars c))) cs.
+Definition trig_row (ruby nested : bool) (ws_lines : bool) (esc : Z -> text) (markup : bool) (cs : res (list cue)) : list bool :=
+  match cs with
+  | Ok l => map negb [ruby; nested; trig_tags_only l; trig_collapsed l; trig_unbounded l; trig_arrow esc l;
+                      trig_blank_line ws_lines esc l; trig_line_range l; false; markup && srt_markup_in_text l]
+  | Err _ => map negb [ruby; nested; false; false; false; false; false; false; true; false]
+  end.
+Definition cases_triggers (d : doc) (srt : list (bool * pyout)) (vtt : list (vtt_config * pyout)) : list bool :=
+  match isd_sequence d with
+  | Ok seq =>
+      let ruby := trig_ruby seq in
+      flat_map (fun x => trig_row ruby false true esc_none true (srt_cues (fst x) seq)) srt ++
+      flat_map (fun x => trig_row ruby (trig_nested_div (fst x) seq) false esc_vtt false
+                                  (match vtt_cues (fst x) seq with Ok r => Ok (fst r) | Err c => Err c end)) vtt
+  | Err _ => flat_map (fun _ => map negb [false; false; false; false; false; false; false; false; true; false]) (map fst srt) ++
+             flat_map (fun _ => map negb [false; false; false; false; false; false; false; false; true; false]) (map fst vtt)
+  end.
